@@ -184,7 +184,16 @@ def guard_destroy(ctx, prog):
 
 guard_destroy.rule_id = "C13.GUARD-apply-site"
 
-RULES = [wmw_status, dom_assert, guard_read, guard_value, cfw_status, guard_destroy]
+def dom_status_first(ctx, prog):
+    """The poisoned status covers the whole stabilise, including the linking / unlinking of observers (user callbacks
+    run there too): the status store comes first (C07.DOM-status-first)."""
+    from .c07 import dom_status_first as f
+    f(ctx, prog, "C13.DOM-status-first")
+
+
+dom_status_first.rule_id = "C13.DOM-status-first"
+
+RULES = [wmw_status, dom_assert, guard_read, guard_value, cfw_status, guard_destroy, dom_status_first]
 
 # control signature of the bookkeeping effects this property depends on (rules/ctrlsig.py)
 from .ctrlsig import make_rule as _ctrl_rule  # noqa: E402
